@@ -2,6 +2,7 @@ import SlugModel.Base.Path
 import SlugModel.Addr
 import SlugModel.Ignore
 import SlugModel.Unpack
+import SlugModel.Builder
 /-!
 Line-protocol driver: one request per line on stdin, one answer per line on stdout.
 Fields are separated by single spaces; every string is `x<hex of UTF-8 bytes>`.
@@ -205,6 +206,112 @@ def handleUnpack (toks : List String) : String :=
     | _, _, _, _, _, _ => "not-utf8"
   | _ => "bad-op"
 
+-- ---------- builder encoding ----------
+
+def splitNE (s : String) (sep : String) : List String :=
+  if s = "-" ∨ s = "" then [] else s.splitOn sep
+
+def decVerList (s : String) : Option (List VerS) := (splitNE s "+").mapM decStr
+
+def decDecl (s : String) : Option Decl :=
+  match s.splitOn "~" with
+  | ["r", p, sub, f] => do pure (.remote { pkg := ← decStr p, sub := ← decStr sub } (← f.toNat?))
+  | ["g", p, sub, al, f] => do pure (.registry { pkg := ← decStr p, sub := ← decStr sub } (← decVerList al) (← f.toNat?))
+  | ["l", rel, f] => do pure (.loc (← decStr rel) (← f.toNat?))
+  | ["w", summ, file] => do pure (.diag false (← decStr summ) (← decStr file))
+  | ["e", summ, file] => do pure (.diag true (← decStr summ) (← decStr file))
+  | _ => none
+
+def decOptPair (a b : String) : Option (Option (Str × Str)) :=
+  if a = "-" then some none else do pure (some (← decStr a, ← decStr b))
+
+def decVerInfo (s : String) : Option VerInfo :=
+  match s.splitOn "~" with
+  | [v, rank, dr, dl] => do pure { ver := ← decStr v, rank := ← rank.toNat?, deprecation := ← decOptPair dr dl }
+  | _ => none
+
+structure WorldAcc where
+  w : World := { fetch := [], versions := [], sources := [], deps := [] }
+
+def decWorldItem (acc : World) (item : String) : Option World :=
+  match item.splitOn ":" with
+  | ["P", p, "ERR", _, _] => do pure { acc with fetch := acc.fetch ++ [(← decStr p, none)] }
+  | ["P", p, c, mc, mm] => do
+      pure { acc with fetch := acc.fetch ++ [(← decStr p, some (← decStr c, ← decOptPair mc mm))] }
+  | ["R", r, "ERR"] => do pure { acc with versions := acc.versions ++ [(← decStr r, none)] }
+  | ["R", r, vs] => do
+      pure { acc with versions := acc.versions ++ [(← decStr r, some (← (splitNE vs "/").mapM decVerInfo))] }
+  | ["S", r, v, "ERR", _] => do pure { acc with sources := acc.sources ++ [((← decStr r, ← decStr v), none)] }
+  | ["S", r, v, p, sub] => do
+      pure { acc with sources := acc.sources ++ [((← decStr r, ← decStr v), some { pkg := ← decStr p, sub := ← decStr sub })] }
+  | ["D", c, sub, f, decls] => do
+      pure { acc with deps := acc.deps ++ [((← decStr c, ← decStr sub, ← f.toNat?), ← (splitNE decls "/").mapM decDecl)] }
+  | _ => none
+
+def decWorld (s : String) : Option World :=
+  (splitNE s ",").foldlM decWorldItem { fetch := [], versions := [], sources := [], deps := [] }
+
+def decOp (s : String) : Option Op :=
+  match s.splitOn "~" with
+  | ["ar", p, sub, f] => do pure (.addRemote { pkg := ← decStr p, sub := ← decStr sub } (← f.toNat?))
+  | ["ag", p, sub, al, f] => do pure (.addRegistry { pkg := ← decStr p, sub := ← decStr sub } (← decVerList al) (← f.toNat?))
+  | _ => none
+
+def encDiag (d : Diag) : String :=
+  if d.kind < 3 then (if d.isError then "E" else "W") ++ toString d.kind ++ ":x:x:x:false"
+  else
+    (if d.isError then "E" else "W") ++ toString d.kind ++ ":" ++ (if d.rewritten then encStr d.pkg else "x") ++ ":" ++
+      encStr d.summary ++ ":" ++ encStr d.file ++ ":" ++ encBool d.rewritten
+
+def encOpResult : OpResult → String
+  | .refused => "refused"
+  | .diverged => "diverged"
+  | .diags [] => "-"
+  | .diags ds => String.intercalate "," (ds.map encDiag)
+
+def encEv : Ev → String
+  | .fetchStart p => "fs:" ++ encStr p | .fetchCall p => "fc:" ++ encStr p | .fetchOk p => "fo:" ++ encStr p
+  | .fetchFail p => "ff:" ++ encStr p | .fetchAlready p => "fa:" ++ encStr p
+  | .versStart r => "vs:" ++ encStr r | .versCall r => "vc:" ++ encStr r | .versOk r => "vo:" ++ encStr r
+  | .versFail r => "vf:" ++ encStr r | .versAlready r => "va:" ++ encStr r
+  | .srcStart r v => "ss:" ++ encStr r ++ ":" ++ encStr v | .srcCall r v => "sc:" ++ encStr r ++ ":" ++ encStr v
+  | .srcOk r v => "so:" ++ encStr r ++ ":" ++ encStr v | .srcFail r v => "sf:" ++ encStr r ++ ":" ++ encStr v
+  | .srcAlready r v => "sa:" ++ encStr r ++ ":" ++ encStr v
+  | .analyse s f => "an:" ++ encStr s.pkg ++ ":" ++ encStr s.sub ++ ":" ++ toString f
+  | .traceDiags n => "td:" ++ toString n
+
+def sortStrs (xs : List String) : List String := (xs.toArray.qsort (· < ·)).toList
+
+def encList (xs : List String) : String := if xs.isEmpty then "-" else String.intercalate "," xs
+
+def encOptPair (o : Option (Str × Str)) : String :=
+  match o with
+  | none => "-:-"
+  | some (a, b) => encStr a ++ ":" ++ encStr b
+
+def encBState (st : BState) : String :=
+  let dirs := sortStrs (st.pkgDirs.map fun (p, c) => encStr p ++ ":" ++ encStr c)
+  -- the manifest keeps package metadata only when the commit id is non-empty
+  let metas := sortStrs ((st.pkgMeta.filter fun (_, m) => m.1 ≠ []).map fun (p, m) => encStr p ++ ":" ++ encStr m.1 ++ ":" ++ encStr m.2)
+  let res := sortStrs (st.resolved.map fun ((r, v), s) => encStr r ++ ":" ++ encStr v ++ ":" ++ encStr s.pkg ++ ":" ++ encStr s.sub)
+  let deps := sortStrs (st.deprec.map fun ((r, v), d) => encStr r ++ ":" ++ encStr v ++ ":" ++ encOptPair d)
+  let an := sortStrs (st.analyzed.map fun (s, f) => encStr s.pkg ++ ":" ++ encStr s.sub ++ ":" ++ toString f)
+  if st.poisoned then "- - - - " ++ encList an ++ " true"
+  else
+  encList dirs ++ " " ++ encList metas ++ " " ++ encList res ++ " " ++ encList deps ++ " " ++ encList an ++ " " ++
+    encBool st.poisoned
+
+/-- `builder <world> <ops>` → `<results> <log> <dirs> <metas> <resolved> <deprecations> <analysed> <poisoned>` -/
+def handleBuilder (toks : List String) : String :=
+  match toks with
+  | [world, ops] =>
+    match decWorld world, (splitNE ops ";").mapM decOp with
+    | some w, some ops =>
+      let (st, rs) := runOps w drainFuel BState.init ops
+      String.intercalate "|" (rs.map encOpResult) ++ " " ++ encList (st.log.reverse.map encEv) ++ " " ++ encBState st
+    | _, _ => "not-utf8"
+  | _ => "bad-op"
+
 def handle (line : String) : String :=
   match (line.trimAscii.toString.splitOn " ") with
   | "paths" :: fn :: rest =>
@@ -217,6 +324,7 @@ def handle (line : String) : String :=
     | some args => handleAddr fn args
   | "resolve" :: rest => handleResolve rest
   | "unpack" :: rest => handleUnpack rest
+  | "builder" :: rest => handleBuilder rest
   | "ignore" :: rest =>
     match rest.mapM decStr with
     | none => "not-utf8"
